@@ -171,16 +171,48 @@ def failing(b, kind):
         return b.print(lit("$", "v"), bin_("mod", lit("I", 7), q)), 11
     if kind == "nodata":
         return b.read(var("Z", "I")), 4
+    # the failing expression is an argument of a call that is itself an argument of another call (the subprograms
+    # FA%, GA% and PA are added by call_subs): the half-collected argument lists must be forgotten
+    if kind in ("argcall", "argnest", "arg2", "idxcall"):
+        div = bin_("/", lit("I", 6), q)
+        if kind == "argcall":
+            c1 = fcall("FA", "I", [div], 0)
+            st = b.call("PA", [c1, lit("I", 2)])
+            calls = [c1]
+        elif kind == "argnest":
+            c2 = fcall("GA", "I", [div], 0)
+            c1 = fcall("FA", "I", [c2], 0)
+            st = b.let(var("Z", "I"), bin_("+", c1, lit("I", 1)))
+            calls = [c1, c2]
+        elif kind == "arg2":
+            st = b.call("PA", [lit("I", 1), div])
+            calls = []
+        else:
+            c1 = fcall("FA", "I", [bin_("-", lit("I", 7), bin_("/", lit("I", 6), q))], 0)     # 7 - 6 = 1 once Q% = 1
+            st = b.let(idx("AR", "I", [c1]), lit("I", 1))
+            calls = [c1]
+        for c in calls:
+            c["sid"] = st["id"]
+        return st, 11
     raise ValueError(kind)
 
 
-FKINDS = ["div", "ovf", "castovf", "subscript", "print"]
+def call_subs(b):
+    x = var("X", "I")
+    return [fun("FA", "I", [("X", "I")], [b.let(var("FA", "I"), x)]), fun("GA", "I", [("X", "I")], [b.let(var("GA", "I"), bin_("+", x, lit("I", 1)))]),
+            sub("PA", [("X", "I"), ("Y", "I")], [b.print(lit("$", "pa"), x, var("Y", "I"))])]
+
+
+CALLKINDS = ("argcall", "argnest", "arg2", "idxcall")
+
+
+FKINDS = ["div", "ovf", "castovf", "subscript", "print", "argcall", "argnest", "arg2", "idxcall"]
 HOSTS = ["main", "if", "ifthen", "ifelse", "elseif", "select", "selectelse", "for+", "for-", "while", "dotopwhile", "dobotuntil", "sub"]
 
 
 def fam_trap(tier, rng):
     out = []
-    fk = FKINDS if tier == "thorough" else ["div", "subscript", "ovf"]
+    fk = FKINDS if tier == "thorough" else ["div", "subscript", "ovf", "argcall", "argnest", "arg2"]
     for kind in fk:
         for host in HOSTS:
             for where in ("only", "first", "middle", "last"):
@@ -224,6 +256,14 @@ def fam_trap(tier, rng):
                     if host == "sub" and mode == "resume":
                         # the SUB has its own Q%; repairing the module-level one would loop forever
                         continue
+                    if kind in CALLKINDS:
+                        if tier == "quick" and where in ("first", "middle"):
+                            continue
+                        subs = subs + call_subs(b)
+                        # after the handled error: calls that must still work with clean argument lists
+                        main = main[:]
+                        k = [i for i, x in enumerate(main) if x.get("k") == "label" and x.get("l") == "FIN"][0]
+                        main[k:k] = [b.call("PA", [lit("I", 8), lit("I", 9)])]
                     out.append({"fam": "trap:%s/%s/%s/%s" % (kind, host, where, mode), "prog": prog(main, subs)})
     # failing block headers with RESUME (re-execute) and RESUME label
     for hk in ("if", "while", "for", "select", "dotop"):
